@@ -145,9 +145,11 @@ def rule_fanout(ctx, R):
                       'the Distances command is not sent once per (candidate track x executor): loops around the '
                       'send iterate %s' % texts, c.ln)
         # count
-        for ctor in ('track::store::track_distance::TrackDistanceOk::new',
-                     'track::store::track_distance::TrackDistanceErr::new'):
-            cs = b.find_calls(ctor)
+        for ctor in ('track::store::track_distance::TrackDistanceOk',
+                     'track::store::track_distance::TrackDistanceErr'):
+            # the constructor call is recognised by the type it returns (its name is private to the crate)
+            cs = [c for c in b.find_calls() if b.locals[c.dest['l']].startswith(ctor + '<') and c.callee.startswith(
+                'track::store::track_distance::') and len(c.args) == 2]
             for c in cs:
                 e = eb.operand(c.args[0])
                 muls = [x for x in e.walk() if x.kind == 'bin' and x.name == 'Mul']
@@ -160,7 +162,7 @@ def rule_fanout(ctx, R):
                     has_tr = any(x.has_place(root=('param', 2)) and x.has_call('len') for x in (a, bb_))
                     ok = ok or (has_exec and has_tr)
                 n += 1
-                ctx.check(ok, R, b, 'expected-count:' + ctor.rsplit('::', 2)[-2],
+                ctx.check(ok, R, b, 'expected-count:' + ctor.rsplit('::', 1)[-1],
                           'count = %r' % e, 'the number of expected responses %r is not executors.len() * '
                           'tracks.len()' % e, c.ln)
             if not cs:
